@@ -212,7 +212,7 @@ class SMUserList(UserList, ABC):
             else:
                 return False
 
-        elif isinstance(arg, self.__class__):
+        elif isinstance(arg, self.__class__) and arg.shape == self.shape:
             # instance of same type, clone it
             self.data = copy.copy(arg.data)
 
